@@ -1,5 +1,6 @@
 import ArcSwapModel.M.Driver
 import ArcSwapModel.KindsDriver
+import ArcSwapModel.AutoTraits
 open M
 
 /-- `driver <exec-file>`: replays every execution of the file on `M`. -/
@@ -32,6 +33,9 @@ partial def readExecs (lines : Array String) : Array Exec := Id.run do
 
 def main (args : List String) : IO UInt32 := do
   match args with
+  | ["autotraits"] =>
+    for l in AutoTraits.tableLines do IO.println l
+    return 0
   | ["kinds"] =>
     for l in Kinds.lines do IO.println l
     return 0
